@@ -19,6 +19,7 @@ RULE = (
     "presentation of n re-arms n, nothing else does, nodes are independent; with 1.x rules no request is ever written. Only type-19 writes "
     "are compared. Non-trivial = re-arm after a presentation, two nodes with overlapping episodes, or a failed request write followed by a "
     "retry; distinct = distinct case JSON."
+    " Round 6: `hang_requests` - a request write that never completes until the application's receive timeout (virtual time) cancels it; read errors among the events."
 )
 ASSUMPTIONS = [
     "a failed request write surfaces as a transport error from that listen step (any library error is accepted)",
